@@ -225,6 +225,7 @@ pub fn check_tracker(h: &crate::gen::scenes::History) -> CaseResult {
 }
 
 pub fn run(env: &Env, rep: &Report) {
+    stall_watchdog(400);
     rep.set_rule("level A: SortVoting::winners on weight matrices - exhaustive for <=3 detections x <=3 tracks over a grid straddling the threshold, random up to 8x8 with shuffled arrival order, IoU-like and Mahalanobis-like weights; oracle: subset-DP optimum with 'unmatched = threshold'. Level B: Sort / BatchSort histories (crowds, crossings, duplicates, drop-outs), every call checked against the f64 shadow: continuations are gated pairs of live unexpired tracks of the scene and their total equals the DP optimum. Non-trivial: the optimum beats row-order or best-first greedy, or a weight lies within 0.05 of the gate; distinct = distinct serialized case");
     rep.assume("integerisation at 1e-6 and f32 scaling: totals compared within rows*(2e-6 + 4e-7*max|w|)");
     run_level_a(env, rep);
